@@ -119,6 +119,14 @@ pub fn replay_file(path: &str) -> i32 {
             let ty = j.get("ty").and_then(|x| x.as_str()).unwrap_or("");
             crate::props::c06::run_entry(entry, text, ty)
         }
+        "error_message" => {
+            let text = j.get("program").and_then(|x| x.as_str()).unwrap_or("");
+            match crate::props::c20::verdict(text) {
+                None => "accepted or no message".to_string(),
+                Some(Ok(())) => "message ok".to_string(),
+                Some(Err(why)) => format!("MISMATCH {why}"),
+            }
+        }
         other => {
             println!("replay kind {other:?}: no single-case runner; the file records the inputs:\n{}", serde_json::to_string_pretty(&j).unwrap_or_default());
             return 0;
